@@ -57,6 +57,14 @@ def _write_shims(bin_dir: str) -> None:
     os.chmod(plug, 0o755)
 
 
+class EnvironmentalFailure(RuntimeError):
+    pass
+
+
+_ENV_MARKERS = ("No space left on device", "MemoryError", "Cannot allocate memory", "No module named 'grpc_tools'",
+                "Too many open files", "Resource temporarily unavailable")
+
+
 def _generate_one(scratch: str, case: str, root: str) -> Tuple[str, int, str]:
     out_dir = os.path.join(scratch, "gen", case)
     os.makedirs(out_dir, exist_ok=True)
@@ -76,8 +84,17 @@ def _generate_one(scratch: str, case: str, root: str) -> Tuple[str, int, str]:
            f"--plugin=protoc-gen-python_betterproto={os.path.join(bin_dir, 'protoc-gen-python_betterproto')}",
            f"--python_betterproto_out={out_dir}",
            f"--descriptor_set_out={os.path.join(scratch, 'gen', case + '.desc')}"] + protos
-    p = subprocess.run(cmd, env=env, capture_output=True, text=True, timeout=300)
-    return case, p.returncode, (p.stdout + p.stderr)[-3000:]
+    try:
+        p = subprocess.run(cmd, env=env, capture_output=True, text=True, timeout=300)
+    except (subprocess.TimeoutExpired, OSError) as e:
+        raise EnvironmentalFailure(f"{case}: protoc could not be run to completion: {type(e).__name__}: {e}")
+    out = (p.stdout + p.stderr)[-3000:]
+    if p.returncode != 0 and (p.returncode < 0 or "python_betterproto" not in out
+                              or any(m in out for m in _ENV_MARKERS)):
+        # killed by a signal, protoc itself missing / unable to start, disk full, out of memory:
+        # the sandbox failed, not the plugin - a harness outcome (exit 2), never C11.G1
+        raise EnvironmentalFailure(f"{case}: generation failed for a reason outside the plugin (rc={p.returncode}): {out[-600:]}")
+    return case, p.returncode, out
 
 
 def generate_corpus(cases: Optional[List[Tuple[str, str]]] = None,
